@@ -638,6 +638,11 @@ lblOuter:
 		mk("hugeliteral", "	z := \""+strings.Repeat("xy", 2600)+"\"\n	return len(z) + a, z[:2] + x"),
 		// long literals made of 3-byte runes behind 0, 1 and 2 ASCII bytes: whatever byte offset a
 		// length cap cuts at, it falls inside a rune in two of the three
+		// the same with 4200 bytes of three-byte characters: a cut at ANY byte position below that
+		// lands inside a character in two of the three variants
+		mk("cjklong0", "	z := \""+strings.Repeat("\u4e16\u754c", 700)+"\"\n	u := \"second-literal\"\n	if b > 0 {\n		return len(z), u\n	}\n	return len(u), z[:3] + y"),
+		mk("cjklong1", "	z := \"a"+strings.Repeat("\u4e16\u754c", 700)+"\"\n	u := \"second-literal\"\n	if b > 0 {\n		return len(z), u\n	}\n	return len(u), z[:4] + y"),
+		mk("cjklong2", "	z := \"ab"+strings.Repeat("\u4e16\u754c", 700)+"\"\n	u := \"second-literal\"\n	if b > 0 {\n		return len(z), u\n	}\n	return len(u), z[:5] + y"),
 		mk("cjk0", "	z := \""+strings.Repeat("\u4e16\u754c", 45)+"\"\n	u := \"second-literal\"\n	if b > 0 {\n		return len(z), u\n	}\n	return len(u), z[:3] + y"),
 		mk("cjk1", "	z := \"a"+strings.Repeat("\u4e16\u754c", 45)+"\"\n	u := \"second-literal\"\n	if b > 0 {\n		return len(z), u\n	}\n	return len(u), z[:4] + y"),
 		mk("cjk2", "	z := \"ab"+strings.Repeat("\u4e16\u754c", 45)+"\"\n	u := \"second-literal\"\n	if b > 0 {\n		return len(z), u\n	}\n	return len(u), z[:5] + y"),
